@@ -372,6 +372,25 @@ impl FinalityTracker {
     }
 }
 
+#[cfg(feature = "verif-hooks")]
+impl FinalityTracker {
+    /// Verification hook: `(slot, status tag, hash)` for every tracked slot.
+    pub(super) fn verif_status(&self) -> Vec<(Slot, &'static str, Option<BlockHash>)> {
+        self.status
+            .iter()
+            .map(|(slot, status)| match status {
+                FinalizationStatus::Notarized(h) => (*slot, "notarized", Some(h.clone())),
+                FinalizationStatus::FinalPendingNotar => (*slot, "final_pending_notar", None),
+                FinalizationStatus::Finalized(h) => (*slot, "finalized", Some(h.clone())),
+                FinalizationStatus::ImplicitlyFinalized(h) => {
+                    (*slot, "impl_finalized", Some(h.clone()))
+                }
+                FinalizationStatus::ImplicitlySkipped => (*slot, "impl_skipped", None),
+            })
+            .collect()
+    }
+}
+
 #[cfg(test)]
 mod tests {
     use super::*;
